@@ -24,7 +24,7 @@ type c10call struct {
 func VerifC10_Dispatch() {
 	vNativeReset()
 	mode := vInt("mode", 0, 2)
-	shape := vInt("shape", 0, 16)
+	shape := vInt("shape", 0, 17)
 	helpCmd := vBool("helpcmd")
 	gv := positional("gv", "a", "b", "w", "a1", "help", "r", "rs", "we")
 	av := positional("av", "a", "b", "w", "a1", "help", "r", "rs", "we")
@@ -47,6 +47,7 @@ func VerifC10_Dispatch() {
 	}
 	opt.String("g", "dg")
 	color := opt.StringOptional("color", "auto")
+	tags := opt.StringSlice("tag", 1, 3)
 	opt.SetCommandFn(fn("root"))
 	a := opt.NewCommand("a", "command a")
 	ao := a.String("ao", "dao")
@@ -108,6 +109,9 @@ func VerifC10_Dispatch() {
 	case 14:
 		// a bare optional-value option, the terminator, then a command name: nothing is selected
 		args, wantArgs = []string{"--color", "--", "a"}, []string{"a"}
+	case 17:
+		// a command name as a further value of a list option is a value
+		args = []string{"--tag", p, "a"}
 	case 15:
 		// an unknown option is the require-order stop point of the command that has it set
 		args, want, wantArgs = []string{"r", "--rf", "--tool", "rs", "--rf"}, "r", []string{"--tool", "rs", "--rf"}
@@ -150,6 +154,11 @@ func VerifC10_Dispatch() {
 	}
 	if shape == 14 {
 		vAssert("dispatch/optional-keeps-default", *color == "auto")
+	}
+	if shape == 17 {
+		vAssert("dispatch/list-took-the-command-name", eqStrs(*tags, []string{p, "a"}))
+	} else {
+		vAssert("dispatch/list-untouched", len(*tags) == 0)
 	}
 	if shape == 13 {
 		vAssert("dispatch/wrapper-option-value", c.wt == gv)
